@@ -111,6 +111,9 @@ def judge(ctx, name, group, libf, reff, reenc, s, stats):
         ref_ok, reason = False, str(e).split(",")[0]
     key = (name, lib_ok, reason, len(s))
     stats[key] = stats.get(key, 0) + 1
+    scls = "%s.%s" % ("accept" if lib_ok else "reject", group)
+    if ctx.want(scls) and len(s) > 1:
+        ctx.case(scls, key=None, nontrivial=False, n=0, sample=dict(reader=name, input=s, library="accepted %r" % (_norm(val),) if lib_ok else "rejected", reference=reason))
     if exc is not None:
         ctx.violation("%s_raises_%s" % (group, type(exc).__name__),
                       "remove/%s(%s) raised %s: %s" % (name, s.hex(), type(exc).__name__, exc),
